@@ -400,7 +400,7 @@ Verdict historyWith(Ctx& c, bool contextEdits) {
       g.G.funcs.assign(allFuncs.begin(), allFuncs.begin() + static_cast<long>(i));  // a body may call only functions defined before it (no recursion)
       g.scope.clear(); g.everUsed.clear();
       for (auto& a : f.args) { g.scope.push_back({a.first, a.second}); g.everUsed.insert(a.first); }
-      altBodies.emplace_back(f.name, f.result.k == Ty::LOGIC ? g.genLogic(2) : g.genTerm(f.result, 2));
+      altBodies.emplace_back(f.name, f.result.k == Ty::LOGIC ? g.genLogic(1) : g.genTerm(f.result, 1));  // shallow: the body is evaluated by every call of every input in three passes
       g.scope.clear(); g.everUsed.clear();
     }
     g.G.funcs = allFuncs;
